@@ -515,6 +515,12 @@ func (g *generator) declareReference(v cue.Value, defV cue.Value) (ast.Type, err
 
 		// Reference to another package
 		if refPkg != g.schema.Package {
+			// only the top-level fields of a package are declared as objects: a value nested
+			// in one of them (`common.#Dashboard.time`) has no name there. It is inlined.
+			if len(path.Selectors()) > 1 {
+				return g.declareNode(referenceRootValue.LookupPath(path))
+			}
+
 			return g.externalReferenceFunc(refPkg, refType, defValue, v)
 		}
 
@@ -1051,6 +1057,11 @@ func (g *generator) stringOrIntegerFromEnum(v cue.Value, defVal any, opts []ast.
 				return false, ast.Type{}, nil
 			}
 		} else {
+			// a value nested in an object of another package is no object of that package
+			if len(path.Selectors()) > 1 {
+				return false, ast.Type{}, nil
+			}
+
 			// the object of another package isn't part of this schema: the CUE value tells
 			isEnum, err := isImplicitEnum(cue.Dereference(conjuncts[0]))
 			if err != nil {
